@@ -779,6 +779,14 @@ func validateV2Siafunds(ms *MidState, txn types.V2Transaction) error {
 		if err := validateV2SpendPolicy(ms, sigHash, sfi.SatisfiedPolicy, sfi.Parent.SiafundOutput.Address, types.Hash256(sfi.Parent.ID)); err != nil {
 			return fmt.Errorf("siafund input %v %w", i, err)
 		}
+
+		// NOTE: the claim start of an ephemeral parent spent below the
+		// EphemeralOutputHeight is not checked against the element it
+		// claims to be; it must not exceed the tax collected so far, or
+		// computing the claim would underflow.
+		if sfi.Parent.ClaimStart.Cmp(ms.siafundTaxRevenue) > 0 {
+			return fmt.Errorf("siafund input %v has claim start (%v) exceeding siafund tax revenue (%v)", i, sfi.Parent.ClaimStart, ms.siafundTaxRevenue)
+		}
 	}
 
 	var inputSum, outputSum uint64
